@@ -1018,7 +1018,7 @@ pub struct ObjFiber {
     pub(crate) return_value: Value,
     pub(crate) exc_handlers: Vec<ExcHandler>,
     pub(crate) return_ip: Option<*const u8>,
-    pub(crate) error_ip: Option<*const u8>,
+    pub(crate) error_ip: Option<(*const u8, usize)>,
 }
 
 impl ObjFiber {
@@ -1163,9 +1163,16 @@ impl ObjFiber {
         }
     }
 
+    /// Remembers where an exception was raised: the instruction and the call depth it was raised at.
+    pub(crate) fn record_error_site(&mut self, ip: *const u8) {
+        self.error_ip = Some((ip, self.frames.len()));
+    }
+
     pub(crate) fn store_error_ip_or(&mut self, alternative: *const u8) {
         // The recorded throw site is only meaningful while the frame it was recorded in is still the
-        // current one (the exception may since have unwound to a `finally` in a caller).
+        // current one (the exception may since have unwound to a `finally` in a caller, which can be
+        // another activation of the same function).
+        let depth = self.frames.len();
         let code = self
             .current_frame()
             .expect("Expected CallFrame.")
@@ -1175,7 +1182,7 @@ impl ObjFiber {
             .code
             .as_ptr_range();
         let ip = match self.error_ip {
-            Some(ip) if ip > code.start && ip <= code.end => ip,
+            Some((ip, at)) if at == depth && ip > code.start && ip <= code.end => ip,
             _ => alternative,
         };
         self.current_frame_mut().expect("Expected CallFrame.").ip = ip;
